@@ -17,6 +17,10 @@ import (
 	"verifharness/internal/sumworld"
 )
 
+// malformedPattern goes in front of every GONOSUMDB list: a malformed glob matches nothing and hides nothing after it
+// (module.MatchPrefixPatterns skips it)
+const malformedPattern = "corp.example.com/[internal"
+
 func init() { core.Register("client", func() core.World { return &clientWorld{} }) }
 
 type clientWorld struct{}
@@ -751,7 +755,7 @@ func replayBehaviour(c *core.Case, in *behaviourIn) ([]core.Violation, bool) {
 			for _, k := range in.Skip {
 				pats = append(pats, w.ModPath(k))
 			}
-			cl.SetGONOSUMDB(strings.Join(pats, ","))
+			cl.SetGONOSUMDB(malformedPattern + "," + strings.Join(pats, ","))
 		}
 		return cl
 	}
